@@ -83,6 +83,15 @@ def build_and_audit(prop: str, tier: str):
     info = {"obligations": 0, "discharged": 0, "broken": [], "notes": [], "theorems": {}, "translators": {}}
     with common.BuildLock():
         info["translators"] = common.run_translators()
+        try:
+            import translate as _tr
+            owners = dict(_tr.OWNER)
+        except Exception:  # noqa
+            owners = {}
+        own_modules = {f"src_{prop.lower()}"} | ({"pysrc", "src_c04"} if prop in ("C04", "C08", "C16", "C17") else set()) \
+            | ({"xsd", "pyenums"} if prop == "C03" else set())
+        info["own_lost"] = sorted(k for k, v in info["translators"].items()
+                                  if not (v.startswith("ok") or v.startswith("regenerated")) and owners.get(k) in own_modules)
         for k, v in info["translators"].items():
             if not (v.startswith("ok") or v.startswith("regenerated")):
                 # never a verdict, but never silent either: the tie of this function is checked against its LAST GOOD translation,
@@ -212,9 +221,15 @@ def check(prop: str, tier: str, seed: int) -> int:
         print(f"note: required buckets not reached in a run that found something else wrong: {missing}", file=sys.stderr)
 
     needs_search = bool(build["broken"] or m["disagreements"]) and not unlisted
-    if needs_search:
-        # failing-input search on the real code: oracle over fresh cases with other seeds
+    lost_search = bool(build.get("own_lost")) and not unlisted and not needs_search
+    if needs_search or lost_search:
+        # failing-input search on the real code: oracle over fresh cases with other seeds.  Also started (with a smaller
+        # budget) when a function of THIS property's translator tie is `lost` on the tree under test: the tie then checks
+        # the last good translation, not the current source, so the search looks harder; finding nothing it is exit 0.
         budget = float(os.environ.get("VERIF_SEARCH_BUDGET_S", "300" if tier == "quick" else "1500"))
+        if lost_search:
+            budget = min(budget, float(os.environ.get("VERIF_LOST_SEARCH_BUDGET_S", "120" if tier == "quick" else "600")))
+            print(f"note: functions of this property's translator tie are lost {build['own_lost']}: bounded failing-input search", file=sys.stderr)
         sres = run_workers(prop, "thorough", seed + 7919, 8, mode="search", budget_s=budget)
         sm = merge(sres)
         for f in sm["failures"]:
